@@ -90,6 +90,7 @@ def generate(rng, tier, cls):
 
     nch = rng.randint(1, 5 if tier == 'thorough' else 3)
     fkinds = {}
+    late_decl = {}
 
     for ci in range(nch):
         attrs = {}
@@ -142,11 +143,19 @@ def generate(rng, tier, cls):
 
             if 'diff' in fattrs:
                 fkinds[(ci, fi)] = (enc, kind)
+                late = False
 
-                if enc:
+                if enc and rng.chance(0.12):
+                    # the diff's encoding / line endings are only declared
+                    # later, between two generate_stats steps
+                    late_decl[(ci, fi)] = (enc, kind)
+                    late = True
+                elif enc:
                     fattrs['diff_encoding'] = enc
 
-                if rng.chance(0.5):
+                if late:
+                    pass
+                elif rng.chance(0.5):
                     fattrs['diff_line_endings'] = kind
 
                 if rng.chance(0.2) and 'diff_type' not in fattrs:
@@ -170,6 +179,19 @@ def generate(rng, tier, cls):
             ops.append({'op': 'meta_set', 'tree': tn,
                         'path': [rng.below(nch), rng.below(3)],
                         'key': 'note', 'value': 'edited'})
+        elif late_decl and rng.chance(0.7):
+            key = rng.choice(sorted(late_decl))
+            enc, kind = late_decl.pop(key)
+            ops.append({'op': 'generate_stats', 'tree': tn, 'path': []})
+            ops.append({'op': 'set', 'tree': tn, 'path': list(key),
+                        'attr': 'diff_encoding', 'value': enc})
+
+            if rng.chance(0.5):
+                ops.append({'op': 'set', 'tree': tn, 'path': list(key),
+                            'attr': 'diff_line_endings', 'value': kind})
+
+            ops.append({'op': 'generate_stats', 'tree': tn,
+                        'path': rng.choice([[], [key[0]], list(key)])})
         elif fkinds:
             key = rng.choice(sorted(fkinds))
             enc, kind = fkinds[key]
